@@ -1,6 +1,7 @@
 import Rangers.Basic.Hex
 import Rangers.Basic.Line
 import Rangers.Model.BlockExec
+import Rangers.Model.ContractPre
 /-!
 Line-protocol driver for C01.  Stateful: a ledger (`St`), the watched addresses and the
 watched escrow slots.  Every op that involves a map-range site is evaluated under three
@@ -24,6 +25,7 @@ ops
   radd <n> (<height> <k> (<id> <val>)*)*
   cmove <height>
   reward x | reward <nextHeight> <castor> <share> <np> (<acct> <share>)* <nv> (<acct> <share>)*
+  igas <datahex> <creation 0|1> <p026 0|1>      dcd <gasLimitFieldHex> <p017 0|1>
   sort <flags6> <n> (<hash> <req> <nonce> <srcStrHex> <srcNumHex>)*
 -/
 namespace Rangers.Drive.C01
@@ -349,6 +351,20 @@ def step (d : DS) (line : String) : DS × String :=
         | some (o, s) => ({ d with st := s }, o)
         | none => (d, "rho-diff")
     | _ => (d, "bad-op")
+  | ["igas", dh, cr, p26] =>
+    match ofHex? dh, nat? cr, nat? p26 with
+    | some data, some cr, some p26 =>
+      (d, match Rangers.Model.ContractPre.intrinsicGas data (cr == 1) (p26 == 1) with
+          | some g => toString g
+          | none => "overflow")
+    | _, _, _ => (d, "bad-op")
+  | ["dcd", fh, p17] =>
+    match ofHex? fh, nat? p17 with
+    | some f, some p17 =>
+      (d, match Rangers.Model.ContractPre.rawGasLimit f (p17 == 1) with
+          | some g => toString g
+          | none => "err")
+    | _, _ => (d, "bad-op")
   | "sort" :: fl :: n :: r =>
     match flags? fl, nat? n with
     | some fl, some n =>
